@@ -64,6 +64,25 @@ def judge(ctx, leg, items, links, exp_res, exp_title, o, depth):
         ctx.violation(f"unexpected warnings {o['other']}", case)
 
 
+def _sphinx_case(job):
+    """one document = one Sphinx project (labels are project-wide: other documents must not offer targets)"""
+    from pathlib import Path
+    from ..sphinx_runner import run_docs
+    rec = job["rec"]
+    items = A.items_str(rec["items"])
+    text, link_lines = A.doc_text(items, A.LINKS, rec.get("wrap", "none"))
+    try:
+        res = run_docs(Path(job["wd"]), {"doc": text}, {"myst_heading_anchors": rec["depth"], "myst_enable_extensions": ["attrs_block"]}, resolve=False)
+    except Exception as e:  # noqa: BLE001
+        return {"error": f"{type(e).__name__}: {e}", "text": text}
+    import shutil
+    shutil.rmtree(job["wd"], ignore_errors=True)
+    r = res.get("doc")
+    if not r or not r["ok"]:
+        return {"error": (r or {}).get("error") or "no result", "text": text}
+    return {"text": text, "link_lines": link_lines, "warn_lines": sorted(w["line"] for w in r["warnings"] if w["tag"] == "myst.xref_missing")}
+
+
 def run(ctx):
     quick = ctx.tier == "quick"
     ctx.rule = ("R: every document within the bound x depth, links at 4 nesting positions (expected owner of every link exported by TLC). "
@@ -85,6 +104,22 @@ def run(ctx):
     ctx.sample({"items": A.items_str(mid["items"]), "depth": mid["depth"],
                 "links": [f"#{n} ({f})" for n, f in A.LINKS], "expected_owner_per_link": mid["res"]})
     ctx.leg("R", behaviours=len(recs))
+
+    # ---- R (Sphinx front end): unresolved local links go on to MystReferenceResolver; one warning per missing link -------
+    step = max(1, len(recs) // (40 if quick else 400))
+    srecs = [r for r in recs[::step] if any(x[0] == "missing" for x in r["res"])]
+    souts = pmap(_sphinx_case, [{"rec": r, "wd": str(ctx.wd / f"sx{n}")} for n, r in enumerate(srecs)], chunksize=1)
+    for rec, o in zip(srecs, souts):
+        ctx.count(("sphinx", repr(rec["items"]), rec["depth"], rec["wrap"]))
+        ctx.traces_validated += 1
+        case = {"leg": "R-sphinx", "markdown": o.get("text"), "depth": rec["depth"]}
+        if "error" in o:
+            ctx.violation(f"Sphinx build raised {o['error']}", case)
+            continue
+        want = sorted(o["link_lines"][l + 1] for l, r_ in enumerate(rec["res"]) if r_[0] == "missing")
+        if o["warn_lines"] != want:
+            ctx.violation(f"Sphinx: [myst.xref_missing] warnings at lines {o['warn_lines']}, expected one per missing link at lines {want}", case)
+    ctx.leg("R-sphinx", builds=len(srecs))
 
     # ---- V ----------------------------------------------------------------------------------
     rnd = random.Random(ctx.seed + 9)
